@@ -1317,7 +1317,7 @@ class Backend:
                 extra_paths = []
 
             cmd_args: T.List[str] = []
-            depends: T.Set[build.BuildTargetTypes] = set(t.depends)
+            depends: OrderedSet[build.BuildTargetTypes] = OrderedSet(t.depends)
             if isinstance(exe, (build.BuildTarget, build.CustomTarget, build.CustomTargetIndex)):
                 depends.add(exe)
             for a in t.cmd_args:
@@ -1344,7 +1344,7 @@ class Backend:
             # b) depends and targets passed via args.
             t_env = copy.deepcopy(t.env)
             if not machine.is_windows() and not machine.is_cygwin():
-                ld_lib_path_libs: T.Set[build.SharedLibrary] = set()
+                ld_lib_path_libs: OrderedSet[build.SharedLibrary] = OrderedSet()
                 for d in depends:
                     if isinstance(d, build.BuildTarget):
                         for l in d.get_all_link_deps():
@@ -1352,7 +1352,7 @@ class Backend:
                                 ld_lib_path_libs.add(l)
 
                 env_build_dir = self.environment.get_build_dir()
-                ld_lib_path: T.Set[str] = set(os.path.join(env_build_dir, l.get_builddir()) for l in ld_lib_path_libs)
+                ld_lib_path: OrderedSet[str] = OrderedSet(os.path.join(env_build_dir, l.get_builddir()) for l in ld_lib_path_libs)
 
                 if ld_lib_path:
                     t_env.prepend('LD_LIBRARY_PATH', list(ld_lib_path), ':')
